@@ -109,6 +109,18 @@ pub fn check_case(model: &mut Model, case: &Case, tag: &str, rep: Option<&mut Re
                 let want = Url::from_file_path(base.join(f)).ok()?;
                 let pos = TextDocumentPositionParams { text_document: TextDocumentIdentifier { uri: luri.clone() }, position: Position::new(2 + 2 * k as u32, 1) };
                 let def = dump::catch(|| server.handle_goto_definition(GotoDefinitionParams { text_document_position_params: pos.clone(), work_done_progress_params: Default::default(), partial_result_params: Default::default() }));
+                // the model's `definitionTarget` (URL dot-segment removal over the note's directory and the link) answers the same URI
+                if let (Some(rep), Ok(GotoDefinitionResponse::Scalar(l))) = (rep.as_deref_mut(), &def) {
+                    let dir = linkers.iter().find(|(n, _)| n == name).map(|(_, d)| d.clone()).unwrap_or_default();
+                    let url = crate::oracle::md::rel_url(f.trim_end_matches(".md"), &dir);
+                    let bp = base.to_string_lossy().to_string();
+                    let m = unhex(&model.call(&format!("(uri.definition {} {} {})", hex(&bp), hex(name), hex(&url)))).unwrap_or_default();
+                    rep.correspondence_cases += 1;
+                    rep.count("definition_corr_cases");
+                    if m != l.uri.as_str() {
+                        rep.disagree(json!({"op": "Uri.definitionTarget vs handle_goto_definition", "note": name, "link": url, "model": m, "impl": l.uri.as_str()}));
+                    }
+                }
                 match def {
                     Ok(GotoDefinitionResponse::Scalar(l)) if l.uri == want => {}
                     Ok(other) => return Some(format!("link {} of note {:?} (to file {:?}): go-to-definition answers {:?}, the file's URI is {}", k, name, f, other, want)),
